@@ -9,9 +9,10 @@ VARIABLES wi, fmt, path, ncols, phase
 vars == <<wi, fmt, path, ncols, phase>>
 
 Long == [i \in 1 .. 70 |-> "é"] \o <<"x">>
+Long3 == [i \in 1 .. 70 |-> "€"] \o <<"y">>          \* 211 bytes: three-byte characters (a row built from it exceeds any 8 KiB buffer at an odd offset)
 NP == << <<"a">>, <<"\"">>, <<",">>, <<"\t">>, <<"\n">>, <<"<">>, <<">">>, <<"&">>, <<"'">>, <<"\\">>, <<"é">>, <<"😀">>, <<"␁">>,
          <<"\"", ",">>, <<"<", "&">>, <<"a", "\"", "b">>, <<"&", "l", "t", ";">>, <<"x", ",", "y">>, <<" ", "a", " ">>, <<"\r">>, Long,
-         <<"<", "t", "d", ">">>, <<"\"", "\"">>, <<"b", "\n", "c">> >>
+         <<"<", "t", "d", ">">>, <<"\"", "\"">>, <<"b", "\n", "c">>, Long3 >>
 NN == Len(NP)
 (* world w: 0 = empty directory; 1..NN one file; NN+1..2*NN three files *)
 Names(w) == IF w = 0 THEN <<>> ELSE IF w <= NN THEN <<NP[w]>>
@@ -24,18 +25,20 @@ Choose == /\ phase = "start"
           /\ wi' \in 0 .. 2 * NN
           /\ fmt' \in {"json", "csv", "html", "tabs", "lines"}
           /\ path' \in {"streamed", "ordered", "limited", "aggregate", "grouped"}
-          /\ ncols' \in (IF path' \in {"aggregate", "grouped"} THEN {0} ELSE {1, 3, 6, 10})       \* 10 = one column that is empty in every row (`ext`: no name has an extension)
+          /\ ncols' \in (IF path' \in {"aggregate", "grouped"} THEN {0} ELSE {1, 3, 6, 10} \cup (IF wi' = NN THEN {45} ELSE {}))       \* 45 = a value of about 9.5 KB       \* 10 = one column that is empty in every row (`ext`: no name has an extension)
           /\ phase' = "done"
 Next == Choose
 Spec == Init /\ [][Next]_vars
 
-ColsText == CASE ncols = 10 -> "ext" [] ncols = 1 -> "name" [] ncols = 3 -> "name, size, ext" [] ncols = 6 -> "name, size, ext, is_file, mode, path"
+RECURSIVE Rep(_)
+Rep(n) == IF n = 0 THEN "" ELSE ", name" \o Rep(n - 1)
+ColsText == CASE ncols = 45 -> "name, concat(name" \o Rep(44) \o ")" [] ncols = 10 -> "ext" [] ncols = 1 -> "name" [] ncols = 3 -> "name, size, ext" [] ncols = 6 -> "name, size, ext, is_file, mode, path"
 Body == CASE path = "streamed" -> "select " \o ColsText \o " from '.'"
           [] path = "ordered" -> "select " \o ColsText \o " from '.' order by name desc"
           [] path = "limited" -> "select " \o ColsText \o " from '.' order by name limit 2"
           [] path = "aggregate" -> "select count(*), max(size), 'te<x>t & \"q\", z' from '.'"
           [] path = "grouped" -> "select name, count(*) from '.' group by name"
-NC == CASE path = "aggregate" -> 3 [] path = "grouped" -> 2 [] ncols = 10 -> 1 [] OTHER -> ncols
+NC == CASE path = "aggregate" -> 3 [] path = "grouped" -> 2 [] ncols = 10 -> 1 [] ncols = 45 -> 2 [] OTHER -> ncols
 Scenario == [prop |-> "C09", class |-> fmt \o "/" \o path, world |-> World(wi), fmt |-> fmt, path |-> path, ncols |-> NC,
              env |-> [tz |-> "UTC", cwd |-> 0],
              runs |-> << [tag |-> "list", fmt |-> "chars", argv |-> << Body \o " into list" >>],
